@@ -87,6 +87,11 @@ type server struct {
 	ttl     time.Duration
 	tls     bool
 	auth    *httppeeridauth.ServerPeerIDAuth
+	// engine says what handles the instance's requests (reuse_test.go): ServeHTTP, or the
+	// handshake state machine driven directly - a new value per request, or ONE value re-used
+	// through Reset().
+	engine engine
+	direct *directServer
 	opaques map[string]*opaqueRec
 	tokens  map[string]*tokenRec
 
@@ -127,6 +132,10 @@ type world struct {
 	// alteredAccepted counts accepted requests that contained a parameter with altered quoting
 	// next to a complete intact proof.
 	alteredAccepted int
+	// reenc: non-canonical public-key encodings the harness sent, by the ID of their BYTES (keyenc_test.go)
+	reenc map[peer.ID]string
+	// notes are labels that the world's own procedures (honest sessions) add to the case
+	notes []string
 }
 
 type srvConf struct {
@@ -137,7 +146,8 @@ type srvConf struct {
 	ident   int // identity slot: instances with the same keyType and slot share one private key
 	// hmac is the HmacKey the application provides (modes secretOwn / secretShared), see
 	// secrets_test.go; nil selects the classic 32-byte keys ownSecret(i) / sharedSecret().
-	hmac []byte
+	hmac   []byte
+	engine engine
 }
 
 // twoServers is the classic deployment: two unrelated instances.
@@ -167,7 +177,7 @@ func sharedSecret() []byte {
 func newWorld(f failer, conf []srvConf, idents []*keys.Identity) *world {
 	w := &world{f: f, idents: idents, known: map[peer.ID]ic.PubKey{}, pool: map[string][]poolEntry{}}
 	for _, id := range idents {
-		w.known[id.ID] = id.Pub
+		w.know(id)
 	}
 	for i := range conf {
 		id := keys.Get(conf[i].keyType, 10+conf[i].ident)
@@ -210,10 +220,21 @@ func newWorld(f failer, conf []srvConf, idents []*keys.Identity) *world {
 				rw.WriteHeader(http.StatusOK)
 			},
 		}
-		w.known[id.ID] = id.Pub
+		s.engine = conf[i].engine
+		if s.engine != engHTTP {
+			s.direct = newDirectServer(s, provided)
+		}
+		w.know(id)
 		w.srv = append(w.srv, s)
 	}
 	return w
+}
+
+// know enters an identity of the case under the peer ID of its key MATERIAL (keyenc_test.go).
+func (w *world) know(id *keys.Identity) {
+	if cid, ok := canonicalID(id.Pub); ok {
+		w.known[cid] = id.Pub
+	}
 }
 
 // other returns an instance different from s (the sel-th one, cyclically).
@@ -273,7 +294,11 @@ func (w *world) send(s *server, host string, sni string, authz *string, owner in
 				w.panics++
 			}
 		}()
-		s.auth.ServeHTTP(rec, req)
+		if s.direct != nil {
+			s.direct.ServeHTTP(rec, req)
+		} else {
+			s.auth.ServeHTTP(rec, req)
+		}
 	}()
 	now := time.Now()
 	res.at = now
@@ -293,8 +318,11 @@ func (w *world) send(s *server, host string, sni string, authz *string, owner in
 		}
 		ok, how, detail := w.justify(s, host, hdr, res.peer, now, false)
 		if !ok {
-			w.f.Fatalf("C19 server: Next called with peer %s (key type %s) without proof.\n server=%d host=%q time=%s\n Authorization=%q\n %s",
-				res.peer, w.typeOf(res.peer), s.idx, host, now.UTC().Format(time.RFC3339Nano), hdr, detail)
+			if n, ok := w.reenc[res.peer]; ok {
+				detail += "\n NOTE: " + n
+			}
+			w.f.Fatalf("C19 server: Next called with peer %s (key type %s) without proof.\n server=%d (%s) host=%q time=%s\n Authorization=%q\n %s",
+				res.peer, w.typeOf(res.peer), s.idx, engineNames[s.engine], host, now.UTC().Format(time.RFC3339Nano), hdr, detail)
 		}
 		// Values whose quoting was altered are not carried by the request (syntax_test.go): the
 		// proof must be complete without them.
@@ -381,13 +409,17 @@ func (w *world) recordChallenge(s *server, host string, www []param, now time.Ti
 }
 
 // pubOf finds a public key whose peer ID is p: the identities of the case, a key embedded in
-// the ID, or any key carried by the request itself.
+// the ID, or any key carried by the request itself - in whatever encoding the library's parser
+// accepts; the ID of a carried key is computed by the harness from the key material
+// (canonicalID), so a key written in a non-canonical way stands for its own ID only.
 func (w *world) pubOf(p peer.ID, cands [][]byte) ic.PubKey {
 	if k, ok := w.known[p]; ok {
 		return k
 	}
 	if k, err := p.ExtractPublicKey(); err == nil && k != nil {
-		return k
+		if id, ok := canonicalID(k); ok && id == p {
+			return k
+		}
 	}
 	for _, d := range cands {
 		if len(d) < 30 || len(d) > 1200 {
@@ -397,7 +429,7 @@ func (w *world) pubOf(p peer.ID, cands [][]byte) ic.PubKey {
 		if err != nil {
 			continue
 		}
-		if id, err := peer.IDFromPublicKey(k); err == nil && id == p {
+		if id, ok := canonicalID(k); ok && id == p {
 			return k
 		}
 	}
@@ -503,7 +535,7 @@ func carriesKeyOf(p peer.ID, cands [][]byte) bool {
 		if err != nil {
 			continue
 		}
-		if id, err := peer.IDFromPublicKey(k); err == nil && id == p {
+		if id, ok := canonicalID(k); ok && id == p {
 			return true
 		}
 	}
@@ -548,14 +580,51 @@ const precondition = "harness precondition (valid material must be accepted, oth
 
 // honest runs one complete handshake plus one token use. chal is the client's challenge text.
 func (w *world) honest(ci int, s *server, host string, clientInitiated bool, chal string) []step {
+	return w.honestEnc(ci, s, host, clientInitiated, chal, encCanonical, 0)
+}
+
+// honestEnc is honest with a client whose encoder writes its public key in the way enc
+// (keyenc_test.go). With a non-canonical way the server may refuse (then the session ends there;
+// completeness is not asserted); if it accepts, the oracle in send demands that the reported ID
+// is the one of the key that signed.
+func (w *world) honestEnc(ci int, s *server, host string, clientInitiated bool, chal string, enc, encSel int) []step {
 	c := w.idents[ci]
 	cpub := mustPubBytes(c.Pub)
+	variant := false
+	if enc != encCanonical {
+		if typ, data, ok := pubKeyMaterial(c.Pub); ok {
+			if b, ok := encodeKey(typ, data, enc, encSel); ok {
+				cpub, variant = b, true
+				w.noteEncoding(b, keyEncNames[enc], c.Type, idOfKeyBytes(canonicalKey(typ, data)))
+			}
+		}
+	}
+	flow := "si"
+	if clientInitiated {
+		flow = "ci"
+	}
+	// A re-used state machine (reuse_test.go) that refuses an honest request is not judged here
+	// (completeness is no part of the property); the session ends, the case goes on, and the
+	// label shows that it happened.
+	lenient := variant || s.engine == engReused
+	note := func(out string) {
+		if s.engine == engReused && !variant && out != "accepted" {
+			w.notes = append(w.notes, "reused-engine:honest-session-"+out)
+		}
+		if variant {
+			w.notes = append(w.notes, "keyenc-session:"+keyEncNames[enc], "keyenc-session:"+c.Type+":"+flow+":"+out, "keyenc:"+keyEncNames[enc]+":"+out)
+		}
+	}
 	var steps []step
 	var www []param
 	var t1 time.Time
 	if clientInitiated {
 		ps := []param{{"challenge-server", chal}, {"public-key", b64(cpub)}}
 		r := w.sendParams(s, host, ps, ci)
+		if lenient && !r.called && (r.status != http.StatusUnauthorized || r.www == nil) {
+			note("refused-at-step-1")
+			return steps
+		}
 		if r.called || r.status != http.StatusUnauthorized || r.www == nil {
 			w.f.Fatalf(precondition+"client-initiated step 1: status=%d called=%v", r.status, r.called)
 		}
@@ -565,7 +634,7 @@ func (w *world) honest(ci int, s *server, host string, clientInitiated bool, cha
 		// the server proves itself: checked here only as a sanity test of the harness' own sigData
 		sg, _ := getParam(www, "sig")
 		sd, _ := firstDecode(sg)
-		if !safeVerify(s.ident.Pub, serverSigData(chal, cpub, host), sd) {
+		if !variant && !safeVerify(s.ident.Pub, serverSigData(chal, cpub, host), sd) {
 			w.f.Fatalf(precondition + "server signature in the client-initiated flow does not verify under the spec's data layout")
 		}
 	} else {
@@ -590,9 +659,14 @@ func (w *world) honest(ci int, s *server, host string, clientInitiated bool, cha
 		ps = []param{{"public-key", b64(cpub)}, {"challenge-server", chal}, {"sig", b64(sig)}, {"opaque", op}}
 	}
 	r := w.sendParams(s, host, ps, ci)
+	if lenient && !r.called {
+		note("refused-at-step-2")
+		return steps
+	}
 	if !r.called || r.peer != c.ID {
 		w.f.Fatalf(precondition+"%s: honest %s client not accepted: status=%d called=%v peer=%s", name, c.Type, r.status, r.called, r.peer)
 	}
+	note("accepted")
 	w.poolParams(ps, s.idx, host, ci)
 	steps = append(steps, step{name, ps, true, s.idx, host, ci, t1, r})
 	bearer, ok := getParam(r.info, "bearer")
@@ -601,6 +675,10 @@ func (w *world) honest(ci int, s *server, host string, clientInitiated bool, cha
 	}
 	ps = []param{{"bearer", bearer}}
 	r3 := w.sendParams(s, host, ps, ci)
+	if s.engine == engReused && !r3.called {
+		note("refused-at-step-3")
+		return steps
+	}
 	if !r3.called || r3.peer != c.ID {
 		w.f.Fatalf(precondition+"fresh token not accepted: status=%d called=%v peer=%s", r3.status, r3.called, r3.peer)
 	}
